@@ -60,18 +60,9 @@ TREE_PRELUDE = [
 
 # argument classes (method label-feature, see model_universe.describe) that trigger a reported defect; the clean profile skips them
 AVOID = frozenset([
-  "push_child-ancestor", "push_children-ancestor-child",                                        # M-1
-  "remove_region-referenced-in-body", "remove_region-referenced-outside-body",                # M-2
-  "set_region-foreign-same-id", "set_region-unregistered-same-id",                            # M-3
-  "put_region-replace-referenced",                                                            # M-4
-  "set_doc-None-root-with-children", "set_doc-attach-child-of-detached-parent",               # M-5
-  "set_doc-None-registered-region", "set_doc-None-body",                                      # M-5 (document level)
-  "set_style-invalid-FontFamily-item", "add_animation_step-invalid-FontFamily-item",
-  "put_initial_value-invalid-FontFamily-item",                                                # M-6
-  "Rtc.push_child-extends-Rp-prefix", "Rtc.push_children-onto-existing",                      # M-7
-  "Ruby.push_children-generator", "Rtc.push_children-generator",                              # M-7
-  "Ruby.push_children-unpushable-child", "Rtc.push_children-unpushable-child",                # M-8
-  "Br.copy_to-self-with-animation", "Region.copy_to-self-with-animation",                     # M-9
+  # elements that belong to a document without being below its body are not reachable from the document, so that
+  # remove_region / put_region cannot update their region references (known findings, orphan forms of M-2 and M-4)
+  "remove_region-referenced-outside-body", "put_region-replace-referenced",
 ])
 
 ALPHABET = [
